@@ -2,11 +2,15 @@ From Coq Require Extraction.
 From Coq Require Import ExtrOcamlBasic.
 From NV Require Import Base.Witness Async.Framing Bgzf.Vpos Bgzf.Gzi Bgzf.ReaderOps Async.Reader Async.PollSeek.
 From NV Require Bgzf.Frame Bgzf.Writer Async.Writer Io.Source Io.ReadExact Io.Run Async.ReadExact.
-From NV Require Async.Lines Async.WriteAll.
+From NV Require Async.Lines Async.WriteAll Async.BcfFraming Async.Tab.
 Extraction "model.ml" nv_types_witness async_obs_case sync_obs_case
   async_reader_xcase sync_reader_xcase pack vcomp vuncomp NV.Async.Writer.async_writer_case
   NV.Async.ReadExact.async_bam_case NV.Async.ReadExact.sync_bam_case
   NV.Async.Lines.async_gff_case NV.Async.Lines.sync_gff_case
   NV.Async.Lines.async_fastq_case NV.Async.Lines.sync_fastq_case
   NV.Async.Lines.async_fasta_seq_case NV.Async.Lines.sync_fasta_seq_case
-  NV.Async.WriteAll.async_write_case.
+  NV.Async.Lines.async_header_case NV.Async.Lines.sync_header_case
+  NV.Async.WriteAll.async_write_case
+  NV.Async.BcfFraming.async_bcf_case NV.Async.BcfFraming.sync_bcf_case
+  NV.Async.Tab.async_sam_view_case NV.Async.Tab.sync_sam_view_case
+  NV.Async.Tab.async_vcf_view_case NV.Async.Tab.sync_vcf_view_case.
